@@ -221,7 +221,7 @@ impl Property for P {
     }
     fn cases(tier: Tier) -> u64 {
         match tier {
-            Tier::Quick => 200_000,
+            Tier::Quick => 800_000,
             Tier::Thorough => 10_000_000,
         }
     }
@@ -241,5 +241,23 @@ impl Property for P {
     }
     fn min_nontrivial_share() -> f64 {
         0.2
+    }
+}
+
+pub fn decode(data: &[u8]) -> Case {
+    let mut r = crate::fuzzdec::Reader::new(data);
+    let mode = r.u8();
+    let mut spec = crate::fuzzdec::optspec(&mut r, true, true);
+    let prior = r.bool();
+    let focus = r.u8();
+    let wp = r.u16();
+    let t = crate::fuzzdec::text(mode, r.rest());
+    if mode & 2 == 2 {
+        let line = t.replace('\n', " ").replace('\r', "");
+        focus_width(&line, &mut spec, wp, focus < 200);
+        Case::WrapDiff { line, spec, prior }
+    } else {
+        focus_width(&t, &mut spec, wp, focus < 200);
+        Case::FillDiff { text: t, spec }
     }
 }
